@@ -6,12 +6,13 @@ KeysOf(r) == LET ns == DOMAIN map[r] IN ns
 EmitScn == (Bound /\ Len(hist) = MaxOps) => PrintT(<<"SCN", ToJson([hist |-> hist])>>)
 AddOps == {[op |-> "add", r |-> r, fn |-> f] : r \in R4, f \in {"f", "g"}}
 NamedOps == {[op |-> "addnamed", r |-> r, fn |-> "f", name |-> n] : r \in R4, n \in {<<"x">>, <<"y", "z">>, <<"g">>}}
-ViewOps == {[op |-> "view", r |-> r, vp |-> vp] : r \in R4, vp \in {<<>>, <<"v">>}}
+ViewOps == {[op |-> "view", r |-> r, vp |-> vp, cls |-> c] : r \in R4, vp \in {<<>>, <<"v">>}, c \in {"V", "W", "M"}}
 MergeOps == {[op |-> "merge", r |-> r, o |-> o] : r \in R4, o \in {"r0", "ra", "rab"}} \ {[op |-> "merge", r |-> x, o |-> x] : x \in R4}
 OpsAll == AddOps \cup NamedOps \cup ViewOps \cup MergeOps
 OpsSmall == {[op |-> "add", r |-> "ra", fn |-> "f"], [op |-> "add", r |-> "rab", fn |-> "g"], [op |-> "add", r |-> "d", fn |-> "f"],
              [op |-> "addnamed", r |-> "ra", fn |-> "f", name |-> <<"g">>], [op |-> "addnamed", r |-> "r0", fn |-> "f", name |-> <<"y", "z">>],
-             [op |-> "view", r |-> "ra", vp |-> <<"v">>], [op |-> "view", r |-> "rab", vp |-> <<>>], [op |-> "view", r |-> "d", vp |-> <<>>],
+             [op |-> "view", r |-> "ra", vp |-> <<"v">>, cls |-> "V"], [op |-> "view", r |-> "rab", vp |-> <<>>, cls |-> "W"],
+             [op |-> "view", r |-> "d", vp |-> <<>>, cls |-> "V"], [op |-> "view", r |-> "r0", vp |-> <<>>, cls |-> "M"],
              [op |-> "merge", r |-> "ra", o |-> "rab"], [op |-> "merge", r |-> "rab", o |-> "ra"], [op |-> "merge", r |-> "r0", o |-> "ra"],
              [op |-> "merge", r |-> "d", o |-> "ra"], [op |-> "merge", r |-> "d", o |-> "r0"], [op |-> "merge", r |-> "ra", o |-> "r0"]}
 =============================================================================
